@@ -71,6 +71,10 @@ type E2ECall struct {
 	// the reply parameters, as generated clients do (only for calls whose script
 	// answers with an error carrying "field": a string).
 	TypedOut bool `json:"typed_out,omitempty"`
+	// FailFirst (send only): the call is first attempted under a context whose
+	// deadline has passed already; Send fails without writing anything, and the
+	// call is then made properly.
+	FailFirst bool `json:"fail_first,omitempty"`
 }
 
 func (s *E2EScenario) Cfg() sim.Config { return s.Config }
@@ -293,7 +297,20 @@ func (s *E2EScenario) Setup(k *sim.Kernel) {
 					ends = sim.NewCtx(0)
 					sctx = ends
 				}
-				recv, err := conn.Send(sctx, call.Method, rawOrNil(call.Params), call.Flags)
+				var recv func(context.Context, interface{}) (uint64, error)
+				var err error
+				if call.FailFirst {
+					dead := sim.NewCtx(time.Microsecond)
+					sim.Sleep(2 * time.Microsecond)
+					recv, err = conn.Send(dead, call.Method, rawOrNil(call.Params), call.Flags)
+					sim.Rec("c.failfirst", errClass(err))
+					if err != nil {
+						recv = nil
+					}
+				}
+				if recv == nil {
+					recv, err = conn.Send(sctx, call.Method, rawOrNil(call.Params), call.Flags)
+				}
 				if ends != nil {
 					ends.Cancel()
 				}
@@ -868,6 +885,9 @@ func genE2E(g *Gen, prop string, params func() string, script func(more bool) Sc
 		for i := range s.Clients[ci].Calls {
 			if c := &s.Clients[ci].Calls[i]; c.Via == "send" && c.RetryDeadlineUs == 0 && g.Pct(8) {
 				c.SendCtxEnds = true
+			}
+			if c := &s.Clients[ci].Calls[i]; c.Via == "send" && g.Pct(5) {
+				c.FailFirst = true
 			}
 		}
 	}
